@@ -1497,3 +1497,110 @@ pub(crate) fn h_sample_roundtrip() {
     }
     vrt_check(mismatches == 0, "C02 load+write keeps every significant token of the sample document in order (numbers by value)");
 }
+
+// ------------------------------------------------------------------ C20: observation harnesses for the relational check
+// (shipped specification.rs vs. a fresh expansion of specification_orig.rs by the in-tree generator). They assert
+// nothing; they only observe model, diagnostics and written text. vf/c20.py runs them on both builds and asks the
+// solver whether any input makes the observations differ.
+
+fn c20_observe(r: &Result<(A2lFile, Vec<A2lError>), A2lError>) {
+    match r {
+        Ok((file, log)) => {
+            vrt_observe_u64(1);
+            vrt_observe_u64(log.len() as u64);
+            let mut first_line = 0u32;
+            if log.len() > 0 { if let Some(l) = error_line(&log[0]) { first_line = l; } }
+            vrt_observe_u64(first_line as u64);
+            let out = file.write_to_string();
+            vrt_observe_bytes(out.as_bytes());
+        }
+        Err(e) => {
+            vrt_observe_u64(0);
+            vrt_observe_u64(error_line(e).unwrap_or(0) as u64);
+            let msg = e.to_string();
+            vrt_observe_u64(msg.len() as u64);
+        }
+    }
+}
+
+/// one MEASUREMENT with symbolic content that flows through generated code: file version (version gates of optional
+/// elements), data type keyword, an optional element, two symbolic hex digits in ECU_ADDRESS, symbolic strictness
+pub(crate) fn h_c20_measurement() {
+    let minor = match vrt_choice(6) { 0 => "50", 1 => "51", 2 => "60", 3 => "61", 4 => "70", _ => "71" };
+    let strict = vrt_any_bool();
+    let dt = match vrt_choice(4) { 0 => "UBYTE", 1 => "SWORD", 2 => "FLOAT64_IEEE", _ => "UQUAD" };
+    let opt = match vrt_choice(9) {
+        0 => "",
+        1 => "ADDRESS_TYPE PBYTE\n",
+        2 => "MODEL_LINK \"ml\"\n",
+        3 => "DISCRETE\n",
+        4 => "LAYOUT ROW_DIR\n",
+        5 => "READ_WRITE\n",
+        6 => "ERROR_MASK 0xF0\n",
+        7 => "ARRAY_SIZE 4\n",
+        _ => "BYTE_ORDER LITTLE_ENDIAN\n",
+    };
+    let h1 = vrt_byte_from(b"09afAFg");
+    let h2 = vrt_byte_from(b"09afAFg");
+    let mut t = String::from("ASAP2_VERSION 1 ");
+    t.push_str(minor);
+    t.push_str("\n/begin PROJECT p \"\"\n/begin MODULE m \"\"\n/begin MEASUREMENT ms \"\" ");
+    t.push_str(dt);
+    t.push_str(" NO_COMPU_METHOD 0 0 0 255\nECU_ADDRESS 0x");
+    t.push(h1 as char);
+    t.push(h2 as char);
+    t.push('\n');
+    t.push_str(opt);
+    t.push_str("/end MEASUREMENT\n/end MODULE\n/end PROJECT\n");
+    let r = load_from_string(&t, None, strict);
+    c20_observe(&r);
+}
+
+/// the repository's sample document and the all-kinds module: every element kind they contain, load + write (+ sort)
+pub(crate) fn h_c20_documents() {
+    match vrt_choice(3) {
+        0 => c20_observe(&load_from_string(SAMPLE_2, None, false)),
+        1 => c20_observe(&load_from_string(SAMPLE_2, None, true)),
+        _ => {
+            let r = load_from_string(&expand(ALL_KINDS_T, "", ""), None, true);
+            c20_observe(&r);
+            if let Ok((mut file, _)) = r {
+                file.sort();
+                vrt_observe_bytes(file.write_to_string().as_bytes());
+                file.sort_new_items();
+                vrt_observe_bytes(file.write_to_string().as_bytes());
+            }
+        }
+    }
+}
+
+/// fault kinds of the C06 family in both modes, unknown elements inside real blocks (C07 family)
+pub(crate) fn h_c20_faults() {
+    let kind = vrt_choice(13);
+    let split = vrt_choice(2) == 1;
+    let strict = vrt_choice(2) == 1;
+    let (text, _) = faulty_document(kind, split);
+    c20_observe(&load_from_string(&text, None, strict));
+}
+
+pub(crate) fn h_c20_unknown_elements() {
+    let point = vrt_choice(C07_POINTS);
+    let payload = match vrt_choice(3) {
+        0 => "FROBNICATE 1 \"two\" three",
+        1 => "/begin FROBNICATE 1 /begin INNER \"x\" /* c */ /end INNER /end FROBNICATE",
+        _ => "FROBNICATE",
+    };
+    let strict = vrt_choice(2) == 1;
+    c20_observe(&load_from_string(&c07_document(point, payload), None, strict));
+}
+
+/// consistency check, merge and cleanup on the merge template: generated PartialEq / name accessors / merge glue
+pub(crate) fn h_c20_module_ops() {
+    let (mut a, _) = load_from_string(&expand(MERGE_T, "", "1"), None, false).unwrap();
+    let (mut b, _) = load_from_string(&expand(MERGE_T, "", "2"), None, false).unwrap();
+    vrt_observe_u64(a.check().len() as u64);
+    a.merge_modules(&mut b);
+    vrt_observe_bytes(a.write_to_string().as_bytes());
+    a.cleanup();
+    vrt_observe_bytes(a.write_to_string().as_bytes());
+}
